@@ -452,6 +452,14 @@ def run(ctx):
         if ctx.time_left() < 60:
             break
     correspond_and_check(ctx, rnd, 'random')
+    # 3b. f-strings: fields starting with a brace, adversarial nested strings, escapes in format specs and nested f-strings
+    from props import c12
+    fs = []
+    for i, src in enumerate(c12.curly_field_sources() + c12.fstring_sources(ctx, ctx.scale(300, 4000)) + c12.nested_string_attacks()[::ctx.scale(6, 1)]):
+        t = parse_or_none(src)
+        if t is not None:
+            fs.append(('fstring%d' % i, src, t))
+    correspond_and_check(ctx, fs, 'f-strings')
     # 4. spec validation of Gram
     spec_validation(ctx, ctx.scale(300, 4000))
     # 5. known findings replay
